@@ -60,7 +60,7 @@ theorem simF_sym {m : Nat → Nat} {s : St} {rs : Ref.St} {env : Nat} {pre post 
     exact ⟨s.jmp (s.pc + 1) (some v :: s.data), m, v,
       (Reach.step h.head (fun f => by rw [exec_envToStack, hv])).toX,
       ⟨rfl, by simp, rfl⟩, rfl, hrel.jmp _ _, MExt.refl s m, RExt.refl rs, FrameF.jmp _ _ _,
-      VOk.ext ((hrel.vok id x v (lexLookup_sound hv)).ok hx) (Frame.jmp _ _ _) (RExt.refl rs) (MExt.refl s m)⟩
+      VOk.ext ((hrel.vok id x v (lexLookup_sound hv)).ok hx) (FrameF.jmp _ _ _) (RExt.refl rs) (MExt.refl s m)⟩
 
 /-! ## `def`, `set` -/
 
@@ -90,7 +90,7 @@ theorem psp_stepF {m : Nat → Nat} {s₁ : St} {rs₁ : Ref.St} {env : Nat} {P 
         ∧ RelF m ((s₁.jmp (s₁.pc + 1) D).bind env x v) (Ref.setVar rs₁ env x (trf m v)) env
         ∧ RExt rs₁ (Ref.setVar rs₁ env x (trf m v)) := fun hb' =>
     ⟨Reach.step a (fun f => (hx' f).trans hb'),
-      (rel1.jmp _ _).bind env hlt hx (VOk.ext hcv (Frame.jmp _ _ _) (RExt.refl _) (MExt.refl _ _)),
+      (rel1.jmp _ _).bind env hlt hx (VOk.ext hcv (FrameF.jmp _ _ _) (RExt.refl _) (MExt.refl _ _)),
       FramesExt.setVar _ _ _ _, fun i c hc => by rw [setVar_clos]; exact hc⟩
   have herr : (bindTop x v).run (s₁.jmp (s₁.pc + 1) D) = (.error .err, s₁.jmp (s₁.pc + 1) D) →
       Fails 1 s₁ rs₁.trace := fun hb' => by
@@ -123,7 +123,7 @@ theorem simF_def_tail {m m₁ : Nat → Nat} {s s₁ : St} {rs rs₁ : Ref.St} {
   obtain ⟨r2, a3⟩ := glue_dup h l1
   have hlen : (ce ++ [Instr.dup, Instr.popStackPutEnv x]).length = ce.length + 1 + 1 := by simp
   have hp := psp_stepF a3 (D := some v :: s.data) rfl (rel1.jmp _ _) hx
-    (VOk.ext hcv (Frame.jmp _ _ _) (RExt.refl _) (MExt.refl _ _))
+    (VOk.ext hcv (FrameF.jmp _ _ _) (RExt.refl _) (MExt.refl _ _))
   cases hdef : Ref.define rs₁ env x (trf m₁ v) with
   | none =>
     rw [hdef] at hp
@@ -137,7 +137,7 @@ theorem simF_def_tail {m m₁ : Nat → Nat} {s s₁ : St} {rs rs₁ : Ref.St} {
         ((s₁.jmp (s₁.pc + 1) (some v :: some v :: s.data)).pc + 1) (some v :: s.data))).bind env x v) :=
       (FrameF.jmp _ _ _).trans ((FrameF.jmp _ _ _).trans (FrameF.bind _ _ _ _))
     refine ⟨_, m₁, v, ((r1.trans r2.toX).trans r3.toX), ⟨l1.fn, ?_, rfl⟩, rfl, rel3, hm1,
-      ext1.trans ext3, fr1.trans hfr3, VOk.ext hcv hfr3.toFrame ext3 (MExt.refl _ _)⟩
+      ext1.trans ext3, fr1.trans hfr3, VOk.ext hcv hfr3 ext3 (MExt.refl _ _)⟩
     show s₁.pc + 1 + 1 = _
     rw [l1.pc, hlen]; push_cast; omega
 
@@ -185,8 +185,8 @@ theorem simF_set_tail {m m₁ : Nat → Nat} {s s₁ : St} {rs rs₁ : Ref.St} {
     have hext3 : RExt rs₁ (Ref.setVar rs₁ id x (trf m₁ v)) :=
       ⟨FramesExt.setVar _ _ _ _, fun i c hc => by rw [setVar_clos]; exact hc⟩
     refine ⟨(s₁.jmp (s₁.pc + 1 + 1) (some v :: s.data)).bind id x v, m₁, v, ?_, ⟨l1.fn, ?_, rfl⟩, rfl,
-      (rel1.jmp _ _).bind id hid hxb (VOk.ext hcv (Frame.jmp _ _ _) (RExt.refl _) (MExt.refl _ _)), hm1,
-      ext1.trans hext3, fr1.trans hfr3, VOk.ext hcv hfr3.toFrame hext3 (MExt.refl _ _)⟩
+      (rel1.jmp _ _).bind id hid hxb (VOk.ext hcv (FrameF.jmp _ _ _) (RExt.refl _) (MExt.refl _ _)), hm1,
+      ext1.trans hext3, fr1.trans hfr3, VOk.ext hcv hfr3 hext3 (MExt.refl _ _)⟩
     · exact ((r1.trans r2.toX).trans (Reach.step a3 hx').toX)
     · show s₁.pc + 1 + 1 = _
       rw [l1.pc, hlen]; push_cast; omega
@@ -262,7 +262,7 @@ theorem SimF.cond_exit {p b rest pre post : List Instr} {m m₁ : Nat → Nat} {
     obtain ⟨r3, l3⟩ := glue_cond_exit h l2
     exact ⟨_, m₂, w, ((hreach.trans r).trans r3.toX), l3, hv, rel.jmp _ _, hm.trans hm2 hframe.fnsLen, hext.trans ext,
       (hframe.trans fr).trans (FrameF.jmp _ _ _),
-      VOk.ext hcl (Frame.jmp _ _ _) (RExt.refl _) (MExt.refl _ _)⟩
+      VOk.ext hcl (FrameF.jmp _ _ _) (RExt.refl _) (MExt.refl _ _)⟩
   | err rs' => exact (FailsX.of_reach hreach h₂)
   | timeout => trivial
   | brk l rs' => exact h₂
@@ -466,7 +466,7 @@ theorem evalCallExpr_nonsym_simF {n : Nat} (hE : FClaimE n) (e : Expr) (he : Ff 
       simp only [hbal]
       rfl
     · exact hrel.back rel4 rfl rfl rfl rfl fr4.linear rfl fr4.flags hfl hfo ext4.1
-    · exact ValIn.mono hcl4 (fun id hg => hg.mono (Nat.le_refl _) (fun _ _ => rfl) (ClosExt.refl _) rfl)
+    · exact ValIn.mono hcl4 (fun id hg => hg.mono (FnsKeep.of_fns_eq rfl) (Nat.le_refl _) (fun _ _ => rfl) (RExt.refl _) rfl)
   | err rs' =>
     rw [hres] at hsim
     obtain ⟨M, hM⟩ := run_of_failsE hsim
@@ -560,7 +560,7 @@ theorem fclaimA_succ {n : Nat} (hE : FClaimE n) (hA : FClaimA n) : FClaimA (n + 
         · rw [hd2]; show _ ++ (some v :: s1.data) = _; rw [hd1]; simp
         · rw [List.map_cons, hv12, hv1, hvs2]
         · rcases List.mem_cons.mp hw with rfl | hw
-          · exact VOk.ext hcl1 ((Frame.jmp _ _ _).trans fr2.toFrame) ext2 hm2
+          · exact VOk.ext hcl1 ((FrameF.jmp _ _ _).trans fr2) ext2 hm2
           · exact hcl2 w hw
       | err rs2 =>
         rw [h2] at ih
@@ -655,20 +655,20 @@ theorem okParam_name {p : String} (h : okParam p = true) : okName p = true := by
 
 theorem fclaimU_succ {n : Nat} (hB : FClaimB n) : FClaimU (n + 1) := by
   intro m s₁ rs₁ env vid vs D hrel hg hd hvs hlen
-  obtain ⟨c, hc1, henv, hrest, hnd, hokp, hbody, hparams, hnargs, hvar, huser, hclo, ⟨p, hp1, hp2, hp3⟩,
+  obtain ⟨c, hc1, hrest, hnd, hokp, hbody, hparams, hnargs, hvar, huser, hel, _,
     t, b, tl, isFn, cb, gs0, gs1, self, hcode, htlt, htclo, hcomp, hsc0, hfname, hff⟩ := hg.clo
   have hvl : vs.length = c.ps.length := by rw [hlen, hnargs]
   -- the reference side
   rw [Ref.applyFn]
-  simp only [hc1, Ref.bindParams, hrest, List.length_map, hvl, if_true, henv]
+  simp only [hc1, Ref.bindParams, hrest, List.length_map, hvl, if_true]
   -- the reference state at the start of the body
-  have hnf : (Ref.newFrame rs₁ 0) = (rs₁.frames.length, { rs₁ with frames := rs₁.frames ++ [{ parent := some 0 }] }) := rfl
+  have hnf : (Ref.newFrame rs₁ c.env) = (rs₁.frames.length, { rs₁ with frames := rs₁.frames ++ [{ parent := some c.env }] }) := rfl
   have hfold := foldl_setVar rs₁.frames.length (c.ps.zip (vs.map (trf m)))
-    { rs₁ with frames := rs₁.frames ++ [{ parent := some 0 }] } { parent := some 0 }
+    { rs₁ with frames := rs₁.frames ++ [{ parent := some c.env }] } { parent := some c.env }
     (by show (rs₁.frames ++ [_])[rs₁.frames.length]? = _; simp)
   generalize hrsB : (c.ps.zip (vs.map (trf m))).foldl (fun s (p : String × Val) => Ref.setVar s rs₁.frames.length p.1 p.2)
-    { rs₁ with frames := rs₁.frames ++ [{ parent := some 0 }] } = rsB at hfold
-  have hfrB : rsB.frames = rs₁.frames ++ [({ vars := bindsVars [] (c.ps.zip (vs.map (trf m))), parent := some 0 } : Ref.Frame)] := by
+    { rs₁ with frames := rs₁.frames ++ [{ parent := some c.env }] } = rsB at hfold
+  have hfrB : rsB.frames = rs₁.frames ++ [({ vars := bindsVars [] (c.ps.zip (vs.map (trf m))), parent := some c.env } : Ref.Frame)] := by
     rw [hfold]; show (rs₁.frames ++ [_]).set rs₁.frames.length _ = _
     simp
   have hclB : rsB.clos = rs₁.clos := by rw [hfold]
@@ -676,7 +676,7 @@ theorem fclaimU_succ {n : Nat} (hB : FClaimB n) : FClaimU (n + 1) := by
   have htrB : rsB.trace = rs₁.trace := by rw [hfold]
   show (match (match Ref.evalBegin n c.body rs₁.frames.length
         ((c.ps.zip (vs.map (trf m))).foldl (fun s (p : String × Val) => Ref.setVar s rs₁.frames.length p.1 p.2)
-          { rs₁ with frames := rs₁.frames ++ [{ parent := some 0 }] }) with
+          { rs₁ with frames := rs₁.frames ++ [{ parent := some c.env }] }) with
       | .ok v s => Ref.R.ok v s | .brk _ s => .err s | .cont _ s => .err s | r => r) with
     | .ok v' rs' => _ | .err rs' => _ | .timeout => _ | .brk _ _ => _ | .cont _ _ => _)
   rw [hrsB]
@@ -728,7 +728,7 @@ theorem fclaimU_succ {n : Nat} (hB : FClaimB n) : FClaimU (n + 1) := by
   have hndz' : ((c.ps.zip (vs.map (trf m))).map (·.1)).Nodup := by
     rw [List.map_fst_zip (by simp; omega)]; exact hnd
   have relB : RelF m s₄ rsB rs₁.frames.length := by
-    refine hrel.enter hg s₄ rsB t _ _ hsc4 hlin4 hfns4 hcur4 (by subst hs4; subst hs3; rfl) (by subst hs4; subst hs3; rfl)
+    refine hrel.enter hg (fun c' hc' => by rw [hc1] at hc'; injection hc' with hc'; rw [hc']) s₄ rsB t _ _ hsc4 hlin4 hfns4 hcur4 (by subst hs4; subst hs3; rfl) (by subst hs4; subst hs3; rfl)
       hfrB hclB hhpB htrB htclo (fun y => ?_) (fun y v hv => ?_) (fun h hh => ?_)
     · rw [lookup_bindsVars, lookup_bindsVars, List.reverse_reverse, lookup_reverse_of_nodup _ hndz', lookup_zip_map]
       cases (c.ps.zip vs).lookup y <;> rfl
@@ -789,7 +789,7 @@ theorem fclaimU_succ {n : Nat} (hB : FClaimB n) : FClaimU (n + 1) := by
         by show s₁.loops.length ≤ s₅.loops.length; rw [← hloops4]; exact fr5.loopsLen,
         fun id hid => by show s₅.loops.getD id {} = _; rw [← hloops4]; exact fr5.loops id (by rw [hloops4]; exact hid)⟩,
         Nat.le_trans hscl14 fr5.scLen, hflags⟩
-    · exact ValIn.mono hcl5 (fun id hgd => hgd.mono (Nat.le_refl _) (fun _ _ => rfl) (ClosExt.refl _) rfl)
+    · exact ValIn.mono hcl5 (fun id hgd => hgd.mono (FnsKeep.of_fns_eq rfl) (Nat.le_refl _) (fun _ _ => rfl) (RExt.refl _) rfl)
   | err rs' =>
     rw [hres] at hsim
     simp only
@@ -899,7 +899,7 @@ theorem simF_call_fn {k : Nat} (hA : FClaimA (k + 1)) (hU : FClaimU (k + 1)) {h 
     (hrel : RelF m s rs env) (hseg : Seg s pre [.callExpr (.sym h) args] post)
     (hl : lexLookup s h = some (i, .fn vid)) (hg : GoodFn m s rs vid) :
     SimF [.callExpr (.sym h) args] m s rs env (refCall k (.fn (m vid)) args env rs) := by
-  obtain ⟨c, hc1, henv, hrest, hnd, hokp, hbody, hparams, hnargs, hvar, huser, hclo, _, _⟩ := hg.clo
+  obtain ⟨c, hc1, hrest, hnd, hokp, hbody, hparams, hnargs, hvar, huser, _, _, _⟩ := hg.clo
   rw [refCall_fn k (m vid) args env rs c hc1 hokp]
   have hfo : NoLazy (some (fnOf s vid)) := by
     intro f hf
@@ -926,7 +926,7 @@ theorem simF_call_fn {k : Nat} (hA : FClaimA (k + 1)) (hU : FClaimU (k + 1)) {h 
       rw [← ref_evalArgs_length _ _ _ _ _ _ _ h1, hvs, List.length_map]
     have hfo1 : fnOf s1 vid = fnOf s vid := fr1.fns vid hg.lt
     have hcf := run_callFunction_fixed vid vs s.data s1 hd1 (by rw [hfo1]; exact hvar)
-    have hg1 : GoodFn m1 s1 rs1 vid := hg.ext fr1.toFrame ext1 hm1
+    have hg1 : GoodFn m1 s1 rs1 vid := hg.ext fr1 ext1 hm1
     have hmv : m1 vid = m vid := hm1 vid hg.lt
     by_cases har : vs.length = (fnOf s1 vid).nargs
     · -- control enters the callee
@@ -1031,7 +1031,8 @@ theorem simF_call_builtin {k : Nat} (hA : FClaimA (k + 1)) {h name : String} (hn
         hm1, ext1.trans hrext,
         fr1.trans ⟨hfrF, by show s1.scopes.length ≤ s3.scopes.length; rw [hsc]; exact Nat.le_refl _,
           fun i _ => by unfold isFnScope scopeOf; show (s3.scopes.getD i {}).isFunction = _; rw [hsc]⟩,
-        VOk.ext hvok hfrF hrext (MExt.refl _ _)⟩
+        VOk.ext hvok ⟨hfrF, by show s1.scopes.length ≤ s3.scopes.length; rw [hsc]; exact Nat.le_refl _,
+          fun i _ => by unfold isFnScope scopeOf; show (s3.scopes.getD i {}).isFunction = _; rw [hsc]⟩ hrext (MExt.refl _ _)⟩
     by_cases ht : name = "trace"
     · simp only [ht, if_true]
       rw [ht] at hok
@@ -1134,7 +1135,7 @@ theorem simF_call_other {k : Nat} {h : String} {args : List Expr} {m : Nat → N
   · simp only [he, if_true] at hexec ⊢
     refine ⟨s.jmp (s.pc + 1) (some fv :: s.data), m, fv, ReachX.step hseg.head 2 (fun f hf => ?_), ⟨rfl, by simp, rfl⟩,
       rfl, hrel.jmp _ _, MExt.refl s m, RExt.refl rs, FrameF.jmp _ _ _,
-      VOk.ext hv (Frame.jmp _ _ _) (RExt.refl rs) (MExt.refl s m)⟩
+      VOk.ext hv (FrameF.jmp _ _ _) (RExt.refl rs) (MExt.refl s m)⟩
     obtain ⟨F, rfl⟩ : ∃ F, f = F + 2 := ⟨f - 2, by omega⟩
     exact hexec F
   · simp only [he, Bool.false_eq_true, if_false] at hexec ⊢
